@@ -100,10 +100,22 @@ func upstreamFunc(_ context.Context, req *dns.Msg, _ *agd.RequestInfo) (*dns.Msg
 	resp.RecursionAvailable = true
 	q := req.Question[0]
 	resp.Answer = upstreamAnswer(q.Name, q.Qtype)
+	resp.Ns = upstreamAuthority(q.Name, q.Qtype)
 	if o := req.IsEdns0(); o != nil {
 		resp.SetEdns0(o.UDPSize(), o.Do())
 	}
 	return resp, nil
+}
+
+// upstreamAuthority: questions of a type the scripted upstream has no answer for
+// get a recognisable SOA in the authority section, so that "passed through" and
+// "answered with a synthesised NODATA" can be told apart for them too.
+func upstreamAuthority(qname string, qt uint16) []dns.RR {
+	if len(upstreamAnswer(qname, qt)) > 0 {
+		return nil
+	}
+	return []dns.RR{&dns.SOA{Hdr: dns.RR_Header{Name: qname, Rrtype: dns.TypeSOA, Class: dns.ClassINET, Ttl: upstreamTTL},
+		Ns: "ns.upstream-marker.vtest.", Mbox: "h.upstream-marker.vtest.", Serial: fnv(strings.ToLower(qname)), Refresh: 1, Retry: 1, Expire: 1, Minttl: 60}}
 }
 
 // targetsOf lists the A/AAAA/CNAME targets of an answer section.
@@ -145,6 +157,10 @@ type world struct {
 	storage *filterstorage.Default
 	hp      map[string]*hashprefix.Filter
 	hpCache *clearMgr
+	// ref is a twin storage over the same files with the rule-list and
+	// blocked-service result caches OFF (reference for the cache-alias histories).
+	ref     *filterstorage.Default
+	refHP   *clearMgr
 	errs    *errCollector
 	cloner  *dnsmsg.Cloner
 	defMsgs *dnsmsg.Constructor
@@ -215,6 +231,13 @@ var scenarios = []string{
 	"C:rw-cname L0:rblock",
 	"L2:rallow S1:rblock",
 	"C:rallow L0:rblock L1:rblock6",
+	// qtype-restricted rules in cache-enabled sources (cache-alias histories)
+	"L0:block:A",
+	"S0:block:AAAA",
+	"L1:allow:A L2:block",
+	"L2:block:TXT danger",
+	"S1:block:~A adult",
+	"L0:allow:~AAAA L1:block",
 }
 
 const nNoiseNames = 8
@@ -421,7 +444,8 @@ func genWorld(rng *rand.Rand, idx int) *world {
 	}
 	w.DefMode = genMode(rng)
 	w.DefTTL = []uint32{10, 15, 45}[rng.IntN(3)]
-	w.CacheOn = rng.IntN(4) != 0
+	_ = rng.IntN(4)
+	w.CacheOn = idx%4 != 3 // deterministic: three worlds in four run with the result caches on
 	w.Refresh = rng.IntN(2) == 0
 	return w
 }
@@ -730,7 +754,6 @@ func (w *world) build(ctx context.Context, fx *fixture, dir string) (err error) 
 	}
 	w.cloner = dnsmsg.NewCloner(dnsmsg.EmptyClonerStat{})
 	w.errs = &errCollector{}
-	w.hpCache = &clearMgr{}
 	if w.defMsgs, err = dnsmsg.NewConstructor(&dnsmsg.ConstructorConfig{Cloner: w.cloner, BlockingMode: w.DefMode.real(),
 		StructuredErrors: stack.SDE(false), FilteredResponseTTL: time.Duration(w.DefTTL) * time.Second}); err != nil {
 		return err
@@ -797,60 +820,75 @@ func (w *world) build(ctx context.Context, fx *fixture, dir string) (err error) 
 			ResultCacheTTL: time.Hour, RefreshTimeout: timeout, Staleness: staleness, ResultCacheCount: 1000, Enabled: true}
 	}
 
-	for _, cl := range []string{"danger", "adult", "newreg"} {
-		sf := w.Safety[cl]
-		b := &strings.Builder{}
-		fmt.Fprintf(b, "# %s\nfiller-%s.vtest\n", cl, cl)
-		for h := range sf.Hosts {
-			b.WriteString(h + "\n")
+	mk := func(tag string, cacheOn bool) (st *filterstorage.Default, mgr *clearMgr, hps map[string]*hashprefix.Filter, err error) {
+		mgr, hps = &clearMgr{}, map[string]*hashprefix.Filter{}
+		cdir := filepath.Join(cacheDir, tag)
+		if err = os.MkdirAll(cdir, 0o755); err != nil {
+			return nil, nil, nil, err
 		}
-		u := fx.put(pfx+"/hp/"+cl, b.String())
-		hs, herr := hashprefix.NewStorage("")
-		if herr != nil {
-			return herr
+		for _, cl := range []string{"danger", "adult", "newreg"} {
+			sf := w.Safety[cl]
+			b := &strings.Builder{}
+			fmt.Fprintf(b, "# %s\nfiller-%s.vtest\n", cl, cl)
+			for h := range sf.Hosts {
+				b.WriteString(h + "\n")
+			}
+			u := fx.put(pfx+"/hp/"+tag+"/"+cl, b.String())
+			hs, herr := hashprefix.NewStorage("")
+			if herr != nil {
+				return nil, nil, nil, herr
+			}
+			repl := sf.ReplHost
+			if repl == "" {
+				repl = sf.ReplIP.String()
+			}
+			f, ferr := hashprefix.NewFilter(&hashprefix.FilterConfig{Logger: stack.Logger(), Cloner: w.cloner, CacheManager: mgr,
+				Hashes: hs, URL: u, ErrColl: w.errs, Metrics: filter.EmptyMetrics{}, ID: filter.ID(sf.ID),
+				CachePath: filepath.Join(cdir, "hp-"+cl), ReplacementHost: repl, Staleness: staleness, CacheTTL: time.Hour,
+				RefreshTimeout: timeout, CacheCount: 1000, MaxSize: maxSize})
+			if ferr != nil {
+				return nil, nil, nil, fmt.Errorf("hashprefix %s: %w", cl, ferr)
+			}
+			if ferr = f.RefreshInitial(ctx); ferr != nil {
+				return nil, nil, nil, fmt.Errorf("hashprefix %s initial refresh: %w", cl, ferr)
+			}
+			hps[cl] = f
 		}
-		repl := sf.ReplHost
-		if repl == "" {
-			repl = sf.ReplIP.String()
+		st, err = filterstorage.New(&filterstorage.Config{
+			BaseLogger: stack.Logger(), Logger: stack.Logger(),
+			BlockedServices: &filterstorage.ConfigBlockedServices{IndexURL: svcURL, IndexMaxSize: maxSize, IndexRefreshTimeout: timeout,
+				IndexStaleness: staleness, ResultCacheCount: 1000, ResultCacheEnabled: cacheOn, Enabled: true},
+			Custom:     &filterstorage.ConfigCustom{CacheCount: 1000},
+			HashPrefix: &filterstorage.ConfigHashPrefix{Adult: hps["adult"], Dangerous: hps["danger"], NewlyRegistered: hps["newreg"]},
+			RuleLists: &filterstorage.ConfigRuleLists{IndexURL: idxURL, IndexMaxSize: maxSize, MaxSize: maxSize, IndexRefreshTimeout: timeout,
+				IndexStaleness: staleness, RefreshTimeout: timeout, Staleness: staleness, ResultCacheCount: 1000, ResultCacheEnabled: cacheOn},
+			SafeSearchGeneral: ssConf(w.Safety["ssgen"]), SafeSearchYouTube: ssConf(w.Safety["ssyt"]),
+			CacheManager: agdcache.EmptyManager{}, Clock: agdtime.SystemClock{}, ErrColl: w.errs, Metrics: filter.EmptyMetrics{}, CacheDir: cdir,
+		})
+		if err != nil {
+			return nil, nil, nil, fmt.Errorf("filterstorage.New: %w", err)
 		}
-		f, ferr := hashprefix.NewFilter(&hashprefix.FilterConfig{Logger: stack.Logger(), Cloner: w.cloner, CacheManager: w.hpCache,
-			Hashes: hs, URL: u, ErrColl: w.errs, Metrics: filter.EmptyMetrics{}, ID: filter.ID(sf.ID),
-			CachePath: filepath.Join(cacheDir, "hp-"+cl), ReplacementHost: repl, Staleness: staleness, CacheTTL: time.Hour,
-			RefreshTimeout: timeout, CacheCount: 1000, MaxSize: maxSize})
-		if ferr != nil {
-			return fmt.Errorf("hashprefix %s: %w", cl, ferr)
+		if err = st.RefreshInitial(ctx); err != nil {
+			return nil, nil, nil, err
 		}
-		if ferr = f.RefreshInitial(ctx); ferr != nil {
-			return fmt.Errorf("hashprefix %s initial refresh: %w", cl, ferr)
+		if w.Refresh {
+			if err = st.Refresh(ctx); err != nil {
+				return nil, nil, nil, fmt.Errorf("refresh: %w", err)
+			}
+			for cl, f := range hps {
+				if err = f.Refresh(ctx); err != nil {
+					return nil, nil, nil, fmt.Errorf("hashprefix %s refresh: %w", cl, err)
+				}
+			}
 		}
-		w.hp[cl] = f
+		return st, mgr, hps, nil
 	}
-
-	w.storage, err = filterstorage.New(&filterstorage.Config{
-		BaseLogger: stack.Logger(), Logger: stack.Logger(),
-		BlockedServices: &filterstorage.ConfigBlockedServices{IndexURL: svcURL, IndexMaxSize: maxSize, IndexRefreshTimeout: timeout,
-			IndexStaleness: staleness, ResultCacheCount: 1000, ResultCacheEnabled: w.CacheOn, Enabled: true},
-		Custom:     &filterstorage.ConfigCustom{CacheCount: 1000},
-		HashPrefix: &filterstorage.ConfigHashPrefix{Adult: w.hp["adult"], Dangerous: w.hp["danger"], NewlyRegistered: w.hp["newreg"]},
-		RuleLists: &filterstorage.ConfigRuleLists{IndexURL: idxURL, IndexMaxSize: maxSize, MaxSize: maxSize, IndexRefreshTimeout: timeout,
-			IndexStaleness: staleness, RefreshTimeout: timeout, Staleness: staleness, ResultCacheCount: 1000, ResultCacheEnabled: w.CacheOn},
-		SafeSearchGeneral: ssConf(w.Safety["ssgen"]), SafeSearchYouTube: ssConf(w.Safety["ssyt"]),
-		CacheManager: agdcache.EmptyManager{}, Clock: agdtime.SystemClock{}, ErrColl: w.errs, Metrics: filter.EmptyMetrics{}, CacheDir: cacheDir,
-	})
-	if err != nil {
-		return fmt.Errorf("filterstorage.New: %w", err)
-	}
-	if err = w.storage.RefreshInitial(ctx); err != nil {
+	if w.storage, w.hpCache, w.hp, err = mk("main", w.CacheOn); err != nil {
 		return err
 	}
-	if w.Refresh {
-		if err = w.storage.Refresh(ctx); err != nil {
-			return fmt.Errorf("refresh: %w", err)
-		}
-		for cl, f := range w.hp {
-			if err = f.Refresh(ctx); err != nil {
-				return fmt.Errorf("hashprefix %s refresh: %w", cl, err)
-			}
+	if w.CacheOn {
+		if w.ref, w.refHP, _, err = mk("ref", false); err != nil {
+			return fmt.Errorf("cache-off twin: %w", err)
 		}
 	}
 	return nil
